@@ -4,7 +4,6 @@ import os
 import re
 
 META = {
-    "disabled": True,
     "level": "model_checking",
     "text": "TLC exhaustively checks the heartbeat escalation specification (one action per path of heartbeatAction.execute: "
             "staking check failed, unstaking, invalid proposal, bad expiry, signing error, success, low activity below the "
